@@ -30,9 +30,9 @@ MANIFEST = {
 
 PLAN = {
     # tier: (mc cfgs, tlc scenarios per kind, generated per kind, hammer (readers, logged ops, appends, free ops))
-    # ... , append hammers (count, rounds, max concurrent appenders))
-    "quick": (["MC_Explorer_sets_quick.cfg", "MC_Explorer_appenders_quick.cfg", "MC_Explorer_push_quick.cfg"], 25, 60, (4, 40, 6, 1500), (2, 25, 8)),
-    "thorough": (["MC_Explorer_sets_thorough.cfg", "MC_Explorer_push_thorough.cfg", "MC_Explorer_push2_thorough.cfg"], 150, 1200, (6, 120, 12, 20000), (8, 60, 8)),
+    # ... , append hammers (count, rounds, max concurrent appenders), held-fetch scenarios per kind)
+    "quick": (["MC_Explorer_sets_quick.cfg", "MC_Explorer_appenders_quick.cfg", "MC_Explorer_push_quick.cfg"], 25, 60, (4, 40, 6, 1500), (2, 25, 8), 8),
+    "thorough": (["MC_Explorer_sets_thorough.cfg", "MC_Explorer_push_thorough.cfg", "MC_Explorer_push2_thorough.cfg"], 150, 1200, (6, 120, 12, 20000), (8, 60, 8), 60),
 }
 
 ASSUME = [
@@ -49,7 +49,7 @@ ASSUME = [
 def run(prop, tier, replay=None):
     t0 = time.time()
     work = vlib.scratch(prop)
-    mcs, ntlc, ngen, ham, aham = PLAN[tier]
+    mcs, ntlc, ngen, ham, aham, nheld = PLAN[tier]
     seed = vlib.seed()
     mc_states = mc_trans = 0
     mc_info = {}
@@ -80,7 +80,8 @@ def run(prop, tier, replay=None):
         print("TLC negative control: appenders that check before they lock violate ListIsChainPrefix in the model (expected)")
         rnd = random.Random("explorer-hammer-%d" % seed)
         sets = fe.tlc_scenarios(work, ntlc, seed, "sets") + fe.gen_scenarios(seed, ngen, "sets") + [fe.hammer_scenario(rnd, *ham, mode=m) for m in ("lookup", "current")] + [fe.append_hammer_scenario(rnd, aham[1], aham[2]) for _ in range(aham[0])]
-        push = fe.tlc_scenarios(work, ntlc, seed, "push") + fe.gen_scenarios(seed, ngen, "push")
+        sets += fe.held_scenarios(seed, nheld, "sets")
+        push = fe.tlc_scenarios(work, ntlc, seed, "push") + fe.gen_scenarios(seed, ngen, "push") + fe.held_scenarios(seed, nheld, "push")
     for i, s in enumerate(sets + push):
         s["tid"] = i + 1
     by_tid = {s["tid"]: s for s in sets + push}
